@@ -1527,6 +1527,8 @@ class CxxEvaluator(Evaluator):
                 return v.load()
             if isinstance(v, It):
                 return v.deref()
+            if hasattr(v, "load") and getattr(v, "is_pointer_model", False):
+                return v.load()           # a rule's own model of a pointer (e.g. a pointer into an iterator)
             return v
         if k == "un" and e.get("op") in ("++", "--") and True:
             cur = self.eval(e["e"], env, this)
